@@ -86,10 +86,11 @@ pub fn check_order_t<T: QEl>(c: &OrderCase) -> CheckResult {
     if n == 0 || c.pivots.is_empty() || c.qs.is_empty() {
         return Ok(Info::discarded());
     }
+    // Linear on 64-bit integers is only quantified below 2^52: wide 64-bit lanes are checked
+    // with the other four strategies
     let is64 = matches!(c.ty, Ty::I64 | Ty::U64 | Ty::Usize);
-    if is64 && c.data.iter().any(|v| v.abs() >= (1i128 << 52)) {
-        return Ok(Info::discarded());
-    }
+    let skip_linear = is64 && c.data.iter().any(|v| v.abs() >= (1i128 << 52));
+    let strats: Vec<Strat> = STRATS.iter().cloned().filter(|s| !(skip_linear && *s == Strat::Linear)).collect();
     let mut qs: Vec<f64> = c.qs.iter().map(|q| q.resolve(n)).collect();
     qs.push(0.0);
     qs.push(1.0);
@@ -97,7 +98,7 @@ pub fn check_order_t<T: QEl>(c: &OrderCase) -> CheckResult {
     let mut sorted: Vec<Val> = c.data.iter().map(|&v| Val::of(c.ty, v)).collect();
     sort_vals(&mut sorted);
     if !strict() {
-        for &strat in &[Strat::Midpoint, Strat::Linear] {
+        for &strat in strats.iter().filter(|s| !s.selecting()) {
             for &q in &qs {
                 if lane_hits_d5(c.ty, strat, &sorted, q) {
                     return Ok(Info::excluded());
@@ -110,7 +111,7 @@ pub fn check_order_t<T: QEl>(c: &OrderCase) -> CheckResult {
     let lane_min = sorted[0];
     let lane_max = sorted[n - 1];
     let mut res: Vec<Vec<Val>> = vec![];
-    for (si, &strat) in STRATS.iter().enumerate() {
+    for (si, &strat) in strats.iter().enumerate() {
         let r = quantiles_of::<T>(c, &c.data, &qs, strat, si)?;
         let slack = if strat.selecting() || !c.ty.is_float() { 0.0 } else { float_slack };
         // monotone in q
@@ -138,7 +139,7 @@ pub fn check_order_t<T: QEl>(c: &OrderCase) -> CheckResult {
     // Lower <= {Nearest, Midpoint, Linear} <= Higher; all equal when (N-1)q is integral in f64
     for j in 0..qs.len() {
         let (lo, hi) = (res[0][j], res[1][j]);
-        for (si, &strat) in STRATS.iter().enumerate().skip(2) {
+        for (si, &strat) in strats.iter().enumerate().skip(2) {
             let slack = if strat.selecting() || !c.ty.is_float() { 0.0 } else { float_slack };
             ensure!(
                 le_slack(lo, res[si][j], slack) && le_slack(res[si][j], hi, slack),
@@ -157,7 +158,7 @@ pub fn check_order_t<T: QEl>(c: &OrderCase) -> CheckResult {
         // agree on it (C01 accepts either reading of the documented index)
         let p = qs[j] * (n - 1) as f64;
         if p == p.floor() && !boundary_ambiguous(qs[j], n) {
-            for si in 1..5 {
+            for si in 1..strats.len() {
                 ensure!(
                     res[si][j].eqv(&lo),
                     "order",
@@ -165,7 +166,7 @@ pub fn check_order_t<T: QEl>(c: &OrderCase) -> CheckResult {
                     p,
                     qs[j],
                     n,
-                    STRATS[si],
+                    strats[si],
                     res[si][j],
                     lo
                 );
@@ -177,7 +178,7 @@ pub fn check_order_t<T: QEl>(c: &OrderCase) -> CheckResult {
     order.sort_by_key(|&i| (c.perm_keys.get(i).cloned().unwrap_or(0), i));
     let nonid = order.iter().enumerate().any(|(k, &i)| k != i);
     let permuted: Vec<i128> = order.iter().map(|&i| c.data[i]).collect();
-    for (si, &strat) in STRATS.iter().enumerate() {
+    for (si, &strat) in strats.iter().enumerate() {
         let r = quantiles_of::<T>(c, &permuted, &qs, strat, si + 7)?;
         for j in 0..qs.len() {
             ensure!(
@@ -225,7 +226,7 @@ pub fn check_order_t<T: QEl>(c: &OrderCase) -> CheckResult {
                 enc(w[k])
             };
             let mapped: Vec<i128> = c.data.iter().map(|&v| map(Val::of(c.ty, v))).collect();
-            for (si, &strat) in STRATS.iter().enumerate().take(3) {
+            for (si, &strat) in strats.iter().enumerate().take(3) {
                 let r = quantiles_of::<T>(c, &mapped, &qs, strat, si + 13)?;
                 for j in 0..qs.len() {
                     let want = Val::of(c.ty, map(res[si][j]));
@@ -253,6 +254,7 @@ pub fn check_order_t<T: QEl>(c: &OrderCase) -> CheckResult {
         .class_if(nonid, "permuted")
         .class_if(relabelled, "relabelled")
         .class_if(c.use_bulk, "via-bulk-api")
+        .class_if(skip_linear, "wide-64-bit-lane(without-Linear)")
         .class_if(straddle, "q-pair-straddles-index-boundary"))
 }
 
@@ -276,8 +278,9 @@ fn order_strategy(max_lane: usize, with_n32: bool) -> impl Strategy<Value = Orde
             )
         })
         .prop_map(|(ty, mut data, qs, layout, perm_keys, relabel_inc, relabel_base, use_bulk, pivots)| {
-            if matches!(ty, Ty::I64 | Ty::U64 | Ty::Usize) {
-                // Linear on 64-bit integers is only quantified below 2^52
+            if matches!(ty, Ty::I64 | Ty::U64 | Ty::Usize) && perm_keys.first().map(|k| k % 2 == 0).unwrap_or(true) {
+                // Linear on 64-bit integers is only quantified below 2^52 (the other half of the
+                // cases keeps the wide values and drops Linear)
                 for v in data.iter_mut() {
                     *v %= 1i128 << 52;
                 }
